@@ -8,7 +8,7 @@
 From Coq Require Import List Arith Lia Bool Permutation.
 Import ListNotations.
 From TB Require Import ExecModel ExecProofs BalanceModel BalanceProofs ExecRun ExecRunProofs.
-From TB Require SystemModel SystemProofs EstablishProofs TerminationProofs.
+From TB Require SystemModel SystemProofs EstablishProofs TerminationProofs GlueProofs SolverModel SolverProofs SearchProofs FinderModel AvailProofs WholeRunProofs.
 From TB Require Import ComposeProofs.
 
 Section C05.
@@ -95,53 +95,56 @@ Proof. exact (TerminationProofs.stuck_is_finished s). Qed.
 
 (** EXECUTOR AND EVALUATIONS TOGETHER (ComposeProofs.v).  A worker that has popped piece [w] performs
     the steps of program [w] of the pool - that worker, that program - and takes the executor's
-    "solved" step once the program has returned; [nfiles] / [gid] as above, pieces numbered. *)
+    "solved" step once the program has returned; [nfiles] / [gid] as above, pieces numbered.  The
+    program steps are those of the full system [sstep] (failures, arbitrary read answers, cut
+    writes); the same statements hold for the fault-free system (ComposeProofs is generic). *)
 Section C05_composed.
 Variable nfiles gid : nat -> nat.
 Variable n : nat.
 Notation Bn := (balanced nfiles gid).
+Notation S := SystemModel.sstep.
 Variable q0 : nat -> list nat.
 Hypothesis Hq0 : forall i, n <= i -> q0 i = [].
 
 (** Every run of the composition is a run of the executor model and a path of the system of
     SystemModel.v: all the theorems about either hold of it. *)
-Theorem C05_composed_run_is_executor_run c0 c : creach n Bn c0 c -> ExecModel.reach nat n Bn (ce c0) (ce c).
-Proof. exact (proj_exec n Bn c0 c). Qed.
-Theorem C05_composed_run_is_system_path c0 c : creach n Bn c0 c -> SystemModel.sreach (cs c0) (cs c).
-Proof. exact (proj_sys n Bn c0 c). Qed.
+Theorem C05_composed_run_is_executor_run c0 c : creach n Bn S c0 c -> ExecModel.reach nat n Bn (ce c0) (ce c).
+Proof. exact (proj_exec n Bn S c0 c). Qed.
+Theorem C05_composed_run_is_system_path c0 c : creach n Bn S c0 c -> SystemModel.sreach (cs c0) (cs c).
+Proof. exact (full_proj_sys n Bn c0 c). Qed.
 
 (** It terminates: no infinite run from any state whose executor part is reachable. *)
 Theorem C05_composed_terminates c : ExecModel.reach nat n Bn (ExecModel.init nat n q0) (ce c) ->
-  Acc (fun c'' c' => cany n Bn c' c'') c.
+  Acc (fun c'' c' => cany n Bn S c' c'') c.
 Proof.
   exact (compose_terminates n Bn (balanced_perm nat nfiles gid) (balanced_out nat nfiles gid) (balanced_mono nat nfiles gid)
-           (balanced_total nat nfiles gid) q0 Hq0 c).
+           (balanced_total nat nfiles gid) S q0 Hq0 c).
 Qed.
 
 (** It does not get stuck: while some worker has not finished, some worker can move - an executor
     action, a step of the program it is evaluating, or "solved" when that program has returned. *)
 Theorem C05_composed_progress f pool c : (forall w, In w (flat nat n q0) -> w < length pool) ->
-  creach n Bn (cinit n q0 f pool) c -> (exists t, t < n /\ pc (ce c) t <> PDone) -> exists c', cany n Bn c c'.
+  creach n Bn S (cinit n q0 f pool) c -> (exists t, t < n /\ pc (ce c) t <> PDone) -> exists c', cany n Bn S c c'.
 Proof.
-  exact (compose_progress n Bn (balanced_perm nat nfiles gid) (balanced_out nat nfiles gid) (balanced_mono nat nfiles gid)
+  exact (full_progress n Bn (balanced_perm nat nfiles gid) (balanced_out nat nfiles gid) (balanced_mono nat nfiles gid)
            (balanced_total nat nfiles gid) q0 Hq0 f pool c).
 Qed.
 
 (** When every worker has finished: the solved list is a permutation of the work and the program of
     every piece has returned - each was run to completion ... *)
-Theorem C05_composed_exactly_once f pool c : creach n Bn (cinit n q0 f pool) c -> (forall t, t < n -> pc (ce c) t = PDone) ->
+Theorem C05_composed_exactly_once f pool c : creach n Bn S (cinit n q0 f pool) c -> (forall t, t < n -> pc (ce c) t = PDone) ->
   Permutation (solved (ce c)) (flat nat n q0) /\
   forall w, In w (flat nat n q0) -> exists o, nth_error (SystemModel.s_pool (cs c)) w = Some (SolverModel.Ret o).
 Proof.
   exact (compose_exactly_once n Bn (balanced_perm nat nfiles gid) (balanced_out nat nfiles gid) (balanced_mono nat nfiles gid)
-           (balanced_total nat nfiles gid) q0 Hq0 f pool c).
+           (balanced_total nat nfiles gid) S q0 Hq0 f pool c).
 Qed.
 
 (** Complete runs exist (so the statements above are about something): termination + progress. *)
 Theorem C05_composed_run_completes f pool : (forall w, In w (flat nat n q0) -> w < length pool) ->
-  exists c, creach n Bn (cinit n q0 f pool) c /\ forall t, t < n -> pc (ce c) t = PDone.
+  exists c, creach n Bn S (cinit n q0 f pool) c /\ forall t, t < n -> pc (ce c) t = PDone.
 Proof.
-  exact (compose_completes n Bn (balanced_perm nat nfiles gid) (balanced_out nat nfiles gid) (balanced_mono nat nfiles gid)
+  exact (full_completes n Bn (balanced_perm nat nfiles gid) (balanced_out nat nfiles gid) (balanced_mono nat nfiles gid)
            (balanced_total nat nfiles gid) q0 Hq0 f pool).
 Qed.
 
@@ -153,6 +156,33 @@ Proof.
            (balanced_total nat nfiles gid) q0 Hq0 Hnd e t t' w).
 Qed.
 End C05_composed.
+
+(** END TO END (WholeRunProofs.v): a run of loadable torrents ([run_setup]) with [n] workers whose queues
+    [q0] hold the numbers of the pieces of the work list, in the fault-free composition of the executor
+    with the evaluations.  Complete runs exist; every run terminates; EVERY complete run - any
+    interleaving of executor actions and evaluation steps, any rebalancing - has evaluated every piece
+    exactly once, and each piece whose data is present (C02) has ended in [Success] and is in place:
+    "the outcome satisfies the same guarantees as a single-threaded run". *)
+Theorem C05_whole_run_any_schedule nfiles gid n q0 H content export ts ix es ws f0 dev under i pc :
+  (forall k, n <= k -> q0 k = []) ->
+  GlueProofs.run_setup H content export ts ix es ws f0 (map (SolverModel.solve_prog H) ws) ->
+  (forall w, In w (flat nat n q0) -> w < length ws) -> In i (flat nat n q0) ->
+  nth_error ws i = Some pc -> H (SolverProofs.piece_bytes content pc) = SolverModel.w_hash pc ->
+  Forall (SearchProofs.pad_zero content) (SolverModel.w_segs pc) ->
+  AvailProofs.ix_of_fs f0 dev under (FinderModel.metadata_table export ts 0) ix ->
+  Forall (AvailProofs.seg_present_stable content f0 under (FinderModel.metadata_table export ts 0) es) (SolverModel.w_segs pc) ->
+  let c0 := cinit n q0 f0 (map (SolverModel.solve_prog H) ws) in
+  (exists c, creach n (balanced nfiles gid) SystemModel.fstep c0 c /\ forall t, t < n -> ExecModel.pc (ce c) t = PDone) /\
+  (forall c, creach n (balanced nfiles gid) SystemModel.fstep c0 c -> Acc (fun c'' c' => cany n (balanced nfiles gid) SystemModel.fstep c' c'') c) /\
+  (forall c, creach n (balanced nfiles gid) SystemModel.fstep c0 c -> (forall t, t < n -> ExecModel.pc (ce c) t = PDone) ->
+     Permutation (solved (ce c)) (flat nat n q0) /\
+     nth_error (SystemModel.s_pool (cs c)) i = Some (SolverModel.Ret SolverModel.Success) /\
+     forall sg, In sg (SolverModel.w_segs pc) -> SolverModel.e_pad (SolverModel.ps_entry sg) = false ->
+                EstablishProofs.holds_seg content (SystemModel.s_fs (cs c)) sg).
+Proof.
+  exact (fun Hq0 => WholeRunProofs.whole_composed_run_recovers n (balanced nfiles gid) (balanced_perm nat nfiles gid) (balanced_out nat nfiles gid)
+           (balanced_mono nat nfiles gid) (balanced_total nat nfiles gid) q0 Hq0 H content export ts ix es ws f0 dev under i pc).
+Qed.
 
 Print Assumptions C05_work_conserved.
 Print Assumptions C05_exactly_once.
@@ -172,3 +202,4 @@ Print Assumptions C05_composed_progress.
 Print Assumptions C05_composed_exactly_once.
 Print Assumptions C05_one_worker_per_piece.
 Print Assumptions C05_composed_run_completes.
+Print Assumptions C05_whole_run_any_schedule.
